@@ -11,8 +11,11 @@
 package c04
 
 import (
+	"context"
+	"encoding/json"
 	"fmt"
 	"io"
+	"log"
 	"runtime"
 	"sort"
 	"strconv"
@@ -23,6 +26,7 @@ import (
 
 	"github.com/caddyserver/caddy/v2"
 	"github.com/caddyserver/caddy/v2/modules/caddyhttp/reverseproxy"
+	"go.uber.org/zap/zapcore"
 )
 
 const (
@@ -35,14 +39,18 @@ const (
 	// client operations (`writers` lines): the real Logging.openWriter / closeLogs
 	opOpen  = 'O' // openWriter(key), OpenWriter succeeds (ok) or fails
 	opClose = 'c' // closeLogs / Cleanup: Delete every remembered key, oldest first
-	opLSP   = 'Z' // LoadOrStore of a value that is not a Destructor
-	opProv  = 'P' // `hosts` lines: Handler.provisionUpstream (fillHost → LoadOrStore of a *Host)
+	// a whole log set-up through the real BaseLog.provisionCommon: open the writer (pool), then level and
+	// encoder; variant g: all fine, b: bad level, e: failing encoder module (both AFTER the writer was opened)
+	opLog  = 'L'
+	opLSP  = 'Z' // LoadOrStore of a value that is not a Destructor
+	opProv = 'P' // `hosts` lines: Handler.provisionUpstream (fillHost → LoadOrStore of a *Host)
 )
 
 type op struct {
-	kind byte
-	key  int
-	ok   bool // LoadOrNew: constructor succeeds
+	kind    byte
+	key     int
+	ok      bool // LoadOrNew: constructor succeeds
+	variant byte // opLog: 'g', 'b', 'e'
 }
 
 func (o op) String() string {
@@ -56,6 +64,8 @@ func (o op) String() string {
 		return "G"
 	case opClose:
 		return "c"
+	case opLog:
+		return fmt.Sprintf("L%d%c", o.key, o.variant)
 	case opOpen:
 		if o.ok {
 			return fmt.Sprintf("O%do", o.key)
@@ -88,6 +98,19 @@ func (w *probeWriter) Write(p []byte) (int, error) { return len(p), nil }
 func (w *probeWriter) Close() error {
 	return w.v.Destruct() // an error (every third writer) is only logged by closeLogs
 }
+
+// failingEncoder is a log encoder module whose provisioning fails (set-up failure AFTER the writer was opened).
+type failingEncoder struct{ zapcore.Encoder }
+
+func (failingEncoder) CaddyModule() caddy.ModuleInfo {
+	return caddy.ModuleInfo{ID: "caddy.logging.encoders.verif_c04_failing", New: func() caddy.Module { return new(failingEncoder) }}
+}
+
+func (*failingEncoder) Provision(caddy.Context) error {
+	return fmt.Errorf("encoder failed to provision")
+}
+
+func init() { caddy.RegisterModule(failingEncoder{}) }
 
 // probeOpener is a caddy.WriterOpener whose OpenWriter parks like a constructor.
 type probeOpener struct {
@@ -130,16 +153,18 @@ const (
 )
 
 type ret struct {
-	v       *val // LoadOrNew / LoadOrStore value (nil = nil interface)
-	badType bool // a value of a foreign type came back
-	loaded  bool
-	isNew   bool // client: what openWriter reported
-	err     bool
-	deleted bool
-	n       int
-	present bool
-	panic   bool
-	rng     []rngItem
+	v         *val // LoadOrNew / LoadOrStore value (nil = nil interface)
+	badType   bool // a value of a foreign type came back
+	loaded    bool
+	isNew     bool // client: what openWriter reported
+	setupErr  bool // opLog: the log's set-up returned an error
+	writerNil bool // opLog: the log ended up without a writer
+	err       bool
+	deleted   bool
+	n         int
+	present   bool
+	panic     bool
+	rng       []rngItem
 }
 
 type rngItem struct {
@@ -401,6 +426,32 @@ func (t *thread) exec(o op, k cmd) (r ret) {
 			}
 		}
 		r.loaded = !isNew
+	case opLog:
+		// the real set-up glue of a log: openWriter through the pool, then level / encoder
+		before := len(t.logging.VerifWriterKeys())
+		level, ctx := "INFO", caddy.Context{}
+		var enc json.RawMessage
+		switch o.variant {
+		case 'b':
+			level = "no-such-level"
+		case 'e':
+			var cancel context.CancelFunc
+			ctx, cancel = caddy.NewContext(caddy.Context{Context: context.Background()})
+			defer cancel()
+			enc = json.RawMessage(`{"format":"verif_c04_failing"}`)
+		}
+		w, err := t.logging.VerifProvisionLog(ctx, &probeOpener{t: t, key: o.key, ok: true}, level, enc)
+		r.setupErr = err != nil
+		// the pool-level outcome: did the Logging take (and remember) a reference?
+		r.err = len(t.logging.VerifWriterKeys()) == before
+		if w != nil {
+			if pw, ok := caddy.VerifUnwrapWriter(w).(*probeWriter); ok {
+				r.v = pw.v
+			} else {
+				r.badType = true
+			}
+		}
+		r.writerNil = w == nil
 	case opClose:
 		func() {
 			defer func() {
@@ -433,6 +484,7 @@ func newController(nk int, progs [][]op, mode int) *controller {
 		mode: mode, client: mode != modePlain, caseNo: caseCounter.Add(1), hostVals: map[*reverseproxy.Host]*val{}}
 	switch mode {
 	case modeWriters:
+		log.SetOutput(io.Discard) // closeLogs reports close errors through the std logger
 		c.up = caddy.VerifWritersPool()
 	case modeHosts:
 		c.up = reverseproxy.VerifHostsPool()
@@ -529,7 +581,7 @@ func (c *controller) enabled(t *thread) bool {
 	}
 	if !t.inOp {
 		switch t.prog[t.pc].kind {
-		case opLN, opLS, opDel, opCD, opOpen, opClose, opLSP, opProv: // (a skipped conditional Delete is handled by the caller)
+		case opLN, opLS, opDel, opCD, opOpen, opClose, opLSP, opProv, opLog: // (a skipped conditional Delete is handled by the caller)
 			return tryW(&c.up.RWMutex)
 		default:
 			return tryR(&c.up.RWMutex)
@@ -609,6 +661,8 @@ type stepResult struct {
 	opDone bool
 	dv     *val // X: the value whose destructor ran
 	ckey   int  // closeLogs: the key of the Delete in progress
+	// destructor calls that arrived while no Delete was in progress (a client closed a pooled value itself)
+	strayClose []*val
 }
 
 // holdsKey is supplied by the oracle's bookkeeping of the implementation's own returns.
@@ -666,6 +720,13 @@ func (c *controller) turn(t *thread, holds holdsFn, oldest func(t int) (int, boo
 	t.resume <- k
 	t.inOp = true
 	m, ok := c.wait()
+	for ok && m.kind == mDtor && o.kind != opDel && o.kind != opCD && o.kind != opClose {
+		// the value's destructor (a writer's Close) is running although no Delete is in progress:
+		// client glue closed a pooled value behind the pool's back; note it and let the call go on
+		res.strayClose = append(res.strayClose, m.v)
+		t.resume <- cmd{}
+		m, ok = c.wait()
+	}
 	if !ok {
 		c.current = nil
 		res.tok, res.hang = "hang", true
@@ -684,6 +745,11 @@ func (c *controller) turn(t *thread, holds holdsFn, oldest func(t int) (int, boo
 		res.opDone = true
 	}
 	r := m.r
+	if o.kind == opLog && m.kind == mRet {
+		// constructed or loaded: by where the call was parked, not by what the glue reports
+		r.loaded = prevAt == mYield && prevPt == caddy.VerifUPLoadOrNewWait
+		res.m.r.loaded = r.loaded
+	}
 	if o.kind == opOpen && m.kind == mRet && r.err {
 		// openWriter reports (nil, false, err) for the constructing call and for a waiter alike
 		r.loaded = prevAt == mYield && prevPt == caddy.VerifUPLoadOrNewWait
@@ -726,7 +792,7 @@ func (c *controller) turn(t *thread, holds holdsFn, oldest func(t int) (int, boo
 				res.tok = unexpected()
 			}
 		}
-	case (o.kind == opLN || o.kind == opOpen) && first:
+	case (o.kind == opLN || o.kind == opOpen || o.kind == opLog) && first:
 		switch {
 		case m.kind == mCtor:
 			res.tok = "Ni"
@@ -735,7 +801,7 @@ func (c *controller) turn(t *thread, holds holdsFn, oldest func(t int) (int, boo
 		default:
 			res.tok = unexpected()
 		}
-	case o.kind == opLN || o.kind == opOpen:
+	case o.kind == opLN || o.kind == opOpen || o.kind == opLog:
 		switch {
 		case m.kind == mRet && !r.loaded && !r.err:
 			res.tok = "Co" + valStr(r.v)
